@@ -59,6 +59,8 @@ def check(run):
     zf, zn, zcases = cc.v2size_findings(recs, round_trip=False)
     sf0, sn0 = cc.source_findings(cases)
     findings += zf + [f for f in sf0 if f["kind"] == "encode-not-repeatable"]
+    # strings with an explicit zone offset through codecs whose layout carries it: the bytes are those of the instant in UTC
+    findings += cc.structprobe_findings([r for r in recs if r.get("kind") == "structprobe" and r.get("type_cql") in ("time", "date", "timestamp")])[0]
     for r in recs:
         if r.get("kind") == "v2size":
             byid[r["id"]] = dict(r, rep="preferred", enc_hex="(%d bytes, sha256 %s)" % (r["enc_len"], r["enc_sha256"][:16]))
